@@ -87,6 +87,9 @@ type caseFrame struct {
 	Frame Hex    `json:"frame"`
 	Entry string `json:"entry"` // "ReadPacket" or "Unmarshal:<type>"
 	Note  string `json:"note,omitempty"`
+	// History: frames decoded before Frame, whose packets are kept and must
+	// not change while Frame is decoded.
+	History []preOp `json:"history,omitempty"`
 }
 
 func mustJSON(v interface{}) json.RawMessage {
@@ -454,7 +457,11 @@ func drawPrelude(t *rapid.T) []preOp {
 	if rapid.IntRange(0, 9).Draw(t, "prelude") < 7 {
 		return nil
 	}
-	n := rapid.IntRange(1, 3).Draw(t, "prelude.n")
+	return drawPreludeN(t, rapid.IntRange(1, 3).Draw(t, "prelude.n"))
+}
+
+// drawPreludeN draws exactly n unrelated decodes.
+func drawPreludeN(t *rapid.T, n int) []preOp {
 	var ops []preOp
 	for i := 0; i < n; i++ {
 		f, _ := genHostileFrame(t)
